@@ -28,6 +28,11 @@ def one(i):
         ex = next((t[5:] for t in toks if t.startswith("exit=")), "?")
         res.append(f"{pid}: exit {ex}")
         alarm |= ex != "0"
+    if any(r.startswith("stale") for r in res):
+        # keep what was recorded when the refactoring was written; later fix: commits rewrote the same function
+        m.setdefault("detection", {})["note"] = "as tried when written; the patch no longer applies to the current tree because later fix: commits rewrote the same function (not re-run)"
+        json.dump(m, open(os.path.join(d, "meta.json"), "w"), indent=1)
+        return i, res, False
     m["detection"] = dict(results=res, how="tools/try_refactor.sh: patch applied to a scratch copy of /repo, quick tier of every property it touches; expected exit 0")
     json.dump(m, open(os.path.join(d, "meta.json"), "w"), indent=1)
     return i, res, alarm
